@@ -61,6 +61,15 @@ func C04(c *fw.Ctx) {
 			c.R.States++
 			c.R.Transitions++
 		}
+		// the same program with its parameters spelled as names of built-ins (the one kind of
+		// binding the parser lets such a name have outside the program level)
+		if rp, ok := paramsAsBuiltins(prog, builtinParamOrder); ok {
+			_, _, skipped := judge(c, rp, judgeOpts{SigPrefix: sig + "|builtin-named-parameters"})
+			if !skipped {
+				c.R.States++
+				c.R.Transitions++
+			}
+		}
 	}
 	// (a) return placement
 	var path []string
